@@ -386,6 +386,17 @@ FIXED += [
      json.loads('{"result": "v2", "steps": [{"out": "v0", "table": "t1", "verb": "source"}, {"in": "v0", "items": [["q", ["fn", "neg", [["fn", "min", [["col", {"c": "a"}]], {"filter": [["col", {"c": "d"}]]}]], {}]]], "out": "v2", "verb": "summarize"}], "tables": [{"cols": [["id", "int64"], ["k", "float64"], ["d", "bool"], ["a", "uint32"]], "name": "t1", "rows": [[11, -168.5, null, null]]}]}')),
 ]
 
+FIXED += [
+    ("F55-summarize-hidden-group-col", "C14", "summarize with a deselected grouping column raises ValueError instead of KeyError",
+     "group_by(g) >> select(x) / drop(g) / mutate(g=...) >> summarize(...) raised an internal KeyError(UUID) on both backends",
+     {"tables": [TG], "steps": [S(), st("v1", "group_by", "v0", cols=[{"c": "g"}]), st("v2", "select", "v1", cols=[{"c": "x"}]),
+                                st("v3", "summarize", "v2", items=[["s", F("sum", C("x"))]])], "result": "v3"}),
+    ("F56-collect-hidden-group-col", "C16", "collect with a deselected grouping column raises ValueError instead of KeyError",
+     "group_by(g) >> select(x) >> collect() raised an internal KeyError(UUID)",
+     {"tables": [TG], "steps": [S(), st("v1", "group_by", "v0", cols=[{"c": "g"}]), st("v2", "select", "v1", cols=[{"c": "x"}]),
+                                st("v3", "collect", "v2", keep=True)], "result": "v3"}),
+]
+
 
 def main():
     log = subprocess.run(["git", "-C", "/repo", "log", "--format=%h %s"], capture_output=True, text=True).stdout.splitlines()
